@@ -62,6 +62,7 @@ func genC11(rng *rand.Rand, n int, emit func(Case), dist map[string]int) {
 		if len(eff) == 0 {
 			eff = []string{"*"}
 		}
+		var usedOrigins []string
 		for q := 0; q < 6 && it < n; q++ {
 			it++
 			// origin: derived from a pattern of the list (look-alike) or unrelated
@@ -110,13 +111,19 @@ func genC11(rng *rand.Rand, n int, emit func(Case), dist map[string]int) {
 			case 11:
 				origin = strings.Replace(origin, "://", ":", 1)
 			}
+			if len(usedOrigins) > 0 && rng.Intn(3) == 0 {
+				// the same origin again through the same middleware instance: the answer must not depend on history
+				origin = usedOrigins[rng.Intn(len(usedOrigins))]
+				dist["repeated_origin_on_one_instance"]++
+			}
+			usedOrigins = append(usedOrigins, origin)
 			method := []string{http.MethodGet, http.MethodPost, http.MethodOptions, http.MethodOptions}[rng.Intn(4)]
 			req := httptest.NewRequest(method, "/", nil)
 			if origin != "" || rng.Intn(2) == 0 {
 				req.Header.Set(echo.HeaderOrigin, origin)
 			}
 			rec := httptest.NewRecorder()
-			c := e.NewContext(req, rec)
+			c := recycledContext(e, req, rec)
 			ran = false
 			err := h(c)
 			status := 0
